@@ -427,8 +427,8 @@ pub fn run_box_case(bytes: &[u8]) -> (Vec<String>, bool, Vec<u32>) {
                             t.write_u64(x as u64 * 1234567);
                         }
                         3 => {
-                            s.write(&[x, x + 1, 3]);
-                            t.write(&[x, x + 1, 3]);
+                            s.write(&[x, x.wrapping_add(1), 3]);
+                            t.write(&[x, x.wrapping_add(1), 3]);
                         }
                         4 => {
                             s.write_usize(x as usize);
